@@ -159,7 +159,10 @@ func runPwScenario(sc pwScenario) pwResult {
 		wrapped = &base
 	}
 	pw := ioutil.NewProgressWriter(wrapped)
-	ch := pw.Status()
+	// Status() is called when the consumer actually starts: for the "late" and "atclose" consumers
+	// that may be after many writes or around Close() - the channel must be the same one whenever
+	// and however often it is asked for
+	getCh := sync.OnceValue(func() chan int { return pw.Status() })
 
 	// pre-drawn pauses: the one PRNG decides, the goroutines only consume
 	pauses := make([]time.Duration, 64)
@@ -197,6 +200,7 @@ func runPwScenario(sc pwScenario) pwResult {
 			case <-stop:
 				return
 			}
+			ch := getCh()
 			for i := 0; ; i++ {
 				select {
 				case v, ok := <-ch:
@@ -283,6 +287,7 @@ wait:
 				complete = false
 				rescued = true
 				go func() { // let the stuck goroutine go: drain the channel
+					ch := getCh()
 					for {
 						select {
 						case _, ok := <-ch:
@@ -314,7 +319,7 @@ wait:
 			complete = false
 		}
 		select {
-		case _, ok := <-ch:
+		case _, ok := <-pw.Status():
 			if ok {
 				log.mu.Lock()
 				log.violate("not-closed", "receive after Close returned a value")
